@@ -39,7 +39,7 @@ def C01_full_statement : Prop :=
 STATUS OF `C01_full_statement` (and of `C01_termination_full_statement`,
 `C03_exec_justified_full_statement`): NOT a theorem yet.  Proved: `Shape p` (class A: no projection
 reads a projection; class B: every projection has a value-independent read sequence).  Open: DYNAMIC
-projections that read projections.  No counterexample is known: 400 000 generated cases of the stress
+projections that read projections.  No counterexample is known: 280 000 generated cases of the stress
 family `--mode pjchain` (chains of 2–5 projections with conditional reads at every level) agree with
 the from-scratch oracle, in this model, in `Model/Engine.lean` and in the fixed implementation.
 
